@@ -7,6 +7,6 @@ CONSTANTS
   ParentSync = TRUE
   RenameFirst = FALSE
   InPlace = FALSE
-  NUploads = 2
-INVARIANTS Follows Atomic Durable
+  NUploads = 3
+INVARIANTS Follows FactorOK Atomic Durable
 CHECK_DEADLOCK FALSE
